@@ -434,7 +434,26 @@ func (cmd *mainCmd) preview(
 	comments []string,
 ) error {
 	cmd.printComments(filename, comments)
-	return diff.Text(filename, filename, originalContent, modifiedContent, cmd.Stdout)
+	// diff.Text splits its input with a bufio.Scanner, which gives up on
+	// lines longer than 64 KiB. Split the lines here instead.
+	return diff.Slices(filename, filename, splitLines(originalContent), splitLines(modifiedContent), cmd.Stdout)
+}
+
+// splitLines splits text into lines the way bufio.ScanLines does: the line
+// terminator and one carriage return before it are dropped, and a last line
+// without a terminator counts as a line.
+func splitLines(text []byte) []string {
+	var lines []string
+	for len(text) > 0 {
+		line := text
+		if i := bytes.IndexByte(text, '\n'); i >= 0 {
+			line, text = text[:i], text[i+1:]
+		} else {
+			text = nil
+		}
+		lines = append(lines, string(bytes.TrimSuffix(line, []byte("\r"))))
+	}
+	return lines
 }
 
 func (cmd *mainCmd) printComments(filename string, comments []string) {
